@@ -30,6 +30,7 @@ type Opts struct {
 	Crash     string // "" or "meta:N:before" ...
 	MutStart  uint64
 	InstStart uint64
+	ReadOnly  bool // the server is started in read-only mode (datastore.Config.ReadOnly and the server's read-only flag)
 }
 
 // Start launches a child on dir and waits for its ready line.  A child that fails to start
@@ -48,6 +49,9 @@ func Start(o Opts) (*Proc, error) {
 	}
 	if o.InstStart != 0 {
 		args = append(args, "-inststart", fmt.Sprint(o.InstStart))
+	}
+	if o.ReadOnly {
+		args = append(args, "-readonly")
 	}
 	cmd := exec.Command(self, args...)
 	logf, _ := os.CreateTemp("", "dvh-stderr")
